@@ -222,6 +222,7 @@ for name, v in all_viol:
         replay = {'mode': fam[name][0], 'behaviour': full, 'args': args_of[name], 'harness': 'c10'}
     if v['signature'] not in [x['signature'] for x in again['violations']]:
         c.unreproduced('violation %s not reproduced' % v['signature'])
+        continue
     c.report(v['signature'], v['detail'], replay)
 
 # ---- 5. binding self-test: a corrupted expectation must be rejected by the replayer ----
